@@ -156,6 +156,9 @@ type baseDoc struct {
 	Name  string
 	PDF20 bool
 	Base  Doc // unencrypted document after the same pipeline (optimize + write)
+	// generated documents (gendocs.go): what was planted where; nil for corpus documents
+	Planted []plantedString
+	Layout  string
 }
 
 type docCase struct {
@@ -183,10 +186,13 @@ func candidateDocs(t *vk.T) []string {
 	return out
 }
 
-func optimizeFile(in, out string) error {
+// resDicts: also prune unused resources from resource dictionaries (what the optimize command does by default;
+// the encrypt/decrypt commands never do).
+func optimizeFile(in, out string, resDicts bool) error {
 	return safely(func() error {
 		c := model.NewDefaultConfiguration()
 		c.Offline = true
+		c.OptimizeResourceDicts = resDicts
 		return api.OptimizeFile(in, out, c)
 	})
 }
@@ -194,7 +200,22 @@ func optimizeFile(in, out string) error {
 // prepareDocs validates the candidates and builds the unencrypted baselines.
 func prepareDocs(t *vk.T, rd DocReader, dir string) []*baseDoc {
 	cands := candidateDocs(t)
+	return prepareDocsFrom(t, rd, dir, "docs", cands, false, func(i int, p string, d0, d1 Doc) *baseDoc {
+		return &baseDoc{Name: strings.TrimPrefix(p, filepath.Join(vk.RepoDir(), "pkg", "testdata")+"/")}
+	})
+}
+
+// prepareDocsFrom: mk names the document (and may attach what it knows about it) given the source as read.
+// baseIsRewrite: the reference is pdfcpu's plain (unencrypted) rewrite of the source instead of the source as
+// read, and the source need not survive that rewrite unchanged (generated documents: the optimizer prunes
+// unused resources etc.; what must survive is known from the generator and checked by mk).
+func prepareDocsFrom(t *vk.T, rd DocReader, dir, tag string, cands []string, baseIsRewrite bool, mk func(i int, path string, d0, d1 Doc) *baseDoc) []*baseDoc {
 	res := make([]*baseDoc, len(cands))
+	dbg := func(i int, why string, a ...any) {
+		if os.Getenv("VERIF_C22_DEBUG") != "" {
+			fmt.Fprintf(os.Stderr, "prepare %s #%d %s: %s\n", tag, i, cands[i], fmt.Sprintf(why, a...))
+		}
+	}
 	vk.Parallel(len(cands), func(i int) {
 		p := cands[i]
 		raw, err := os.ReadFile(p)
@@ -204,37 +225,52 @@ func prepareDocs(t *vk.T, rd DocReader, dir string) []*baseDoc {
 		c := model.NewDefaultConfiguration()
 		c.Offline = true
 		if err := safely(func() error { return api.ValidateFile(p, c) }); err != nil {
-			t.Count("docs_skipped_invalid", 1)
+			dbg(i, "invalid: %v", err)
+			t.Count(tag+"_skipped_invalid", 1)
 			return
 		}
 		if bytes.Contains(raw, []byte("/Encrypt")) {
-			t.Count("docs_skipped_encrypted", 1)
+			t.Count(tag+"_skipped_encrypted", 1)
 			return
 		}
 		// The reference is the original as pdfcpu reads it. Only documents that pdfcpu's plain
 		// (unencrypted) read-optimize-write pipeline leaves equivalent are used, so that any
 		// difference seen after encryption is due to encryption.
-		b1 := filepath.Join(dir, fmt.Sprintf("base1-%d.pdf", i))
-		if optimizeFile(p, b1) != nil {
-			t.Count("docs_skipped_optimize_fails", 1)
+		b1 := filepath.Join(dir, fmt.Sprintf("base1-%s-%d.pdf", tag, i))
+		if err := optimizeFile(p, b1, !baseIsRewrite); err != nil {
+			dbg(i, "optimize: %v", err)
+			t.Count(tag+"_skipped_optimize_fails", 1)
 			return
 		}
 		d0, err0 := rd.Open(p, "", "")
 		d1, err1 := rd.Open(b1, "", "")
 		os.Remove(b1)
 		if err0 != nil || err1 != nil {
-			t.Count("docs_skipped_baseline_unreadable", 1)
+			dbg(i, "unreadable: %v / %v", err0, err1)
+			t.Count(tag+"_skipped_baseline_unreadable", 1)
 			return
 		}
-		if cls, _ := diffDocs(d0, d1); cls != "" {
-			t.Count("docs_skipped_changed_by_plain_rewrite", 1)
-			return
+		if cls, det := diffDocs(d0, d1); cls != "" {
+			dbg(i, "changed by plain rewrite: %s: %s", cls, det)
+			if !baseIsRewrite {
+				t.Count(tag+"_skipped_changed_by_plain_rewrite", 1)
+				return
+			}
+			t.Count(tag+"_changed_by_plain_rewrite", 1)
 		}
 		v20 := false
 		if v, ok := d0.(interface{ PDF20() bool }); ok {
 			v20 = v.PDF20()
 		}
-		res[i] = &baseDoc{Path: p, Name: strings.TrimPrefix(p, filepath.Join(vk.RepoDir(), "pkg", "testdata")+"/"), PDF20: v20, Base: freeze(d0)}
+		bd := mk(i, p, d0, d1)
+		if bd == nil {
+			return
+		}
+		bd.Path, bd.PDF20, bd.Base = p, v20, freeze(d0)
+		if baseIsRewrite {
+			bd.Base = freeze(d1)
+		}
+		res[i] = bd
 	})
 	var out []*baseDoc
 	for _, d := range res {
@@ -243,6 +279,13 @@ func prepareDocs(t *vk.T, rd DocReader, dir string) []*baseDoc {
 		}
 	}
 	return out
+}
+
+func (cr *caseRunner) casesCounter() string {
+	if cr.tag == "doc" {
+		return "cases/"
+	}
+	return cr.tag + "_cases/"
 }
 
 func randPerm(r *rand.Rand) model.PermissionFlags {
@@ -282,12 +325,6 @@ func runDocs(t *vk.T) {
 	} else {
 		sel = docs
 	}
-	type job struct {
-		d  *baseDoc
-		a  algo
-		pc pwClass
-		i  int
-	}
 	var jobs []job
 	for rep := 0; rep < t.Pick(1, 4); rep++ { // thorough: several random members of every class
 		for _, d := range sel {
@@ -298,121 +335,8 @@ func runDocs(t *vk.T) {
 			}
 		}
 	}
-	var mu sync.Mutex
-	sampled := map[string]bool{}
-	vk.Parallel(len(jobs), func(ji int) {
-		j := jobs[ji]
-		rng := t.RNGi("doccase", ji)
-		upw, opw := j.pc.Gen(rng)
-		perm := randPerm(rng)
-		dc := docCase{Doc: j.d.Name, Alg: j.a.Name, PW: j.pc.Name, UserQ: fmt.Sprintf("%+q", upw), OwnQ: fmt.Sprintf("%+q", opw), Perm: fmt.Sprintf("%04X", uint16(perm))}
-		failed := false
-		viol := func(what, msg string) {
-			if failed {
-				return // only the first failing step of a case is reported: later steps depend on it
-			}
-			failed = true
-			c := dc
-			c.Msg = msg
-			t.Violate(fmt.Sprintf("doc/alg=%s/pw=%s/%s", j.a.Name, j.pc.Name, what),
-				fmt.Sprintf("%s %s upw=%+q opw=%+q perm=%04X: %s: %s", j.d.Name, j.a.Name, upw, opw, uint16(perm), what, msg), c)
-		}
-		enc := filepath.Join(dir, fmt.Sprintf("enc-%d.pdf", ji))
-		defer os.Remove(enc)
-		conf := j.a.conf(upw, opw)
-		conf.Permissions = perm
-		err := safely(func() error { return api.EncryptFile(j.d.Path, enc, conf) })
-		if j.d.PDF20 && j.a.KeyLen != 256 {
-			// documented: PDF 2.0 requires AES-256
-			if err == nil {
-				viol("pdf20-non-aes256-accepted", "EncryptFile succeeded although pdfcpu documents that PDF 2.0 requires AES-256")
-			}
-			t.Count("cases_pdf20_alg_refused_as_documented", 1)
-			t.Eval("")
-			return
-		}
-		t.Eval(fmt.Sprintf("%s|%s|%s|%s|%s|%04X", j.d.Name, j.a.Name, j.pc.Name, upw, opw, uint16(perm)))
-		t.Count("cases/"+j.a.Name, 1)
-		mu.Lock()
-		if k := j.a.Name + j.pc.Name; !sampled[k] && len(sampled) < 8 && ji%7 == 0 {
-			sampled[k] = true
-			t.Sample(dc)
-		}
-		mu.Unlock()
-		if err != nil {
-			viol("encrypt:error="+errClass(err), err.Error())
-			return
-		}
-		raw, _ := os.ReadFile(enc)
-		if !bytes.Contains(raw, []byte("/Encrypt")) {
-			viol("output-not-encrypted", "no /Encrypt in the output of EncryptFile")
-			return
-		}
-		// open with either password
-		for _, who := range []struct{ name, u, o string }{{"user", upw, ""}, {"owner", "", opw}} {
-			d, err := rd.Open(enc, who.u, who.o)
-			if err != nil {
-				viol("open-"+who.name+":error="+errClass(err), err.Error())
-				continue
-			}
-			if cls, det := diffDocs(j.d.Base, d); cls != "" {
-				viol("open-"+who.name+":differs:"+cls, det)
-			}
-			t.Count("opens_ok", 1)
-		}
-		// reported permissions
-		pc := j.a.conf(upw, opw)
-		var got *int16
-		err = safely(func() error { var e error; got, e = api.GetPermissionsFile(enc, pc); return e })
-		switch {
-		case err != nil:
-			viol("get-permissions:error="+errClass(err), err.Error())
-		case got == nil:
-			viol("get-permissions:nil", "GetPermissionsFile reports no permissions for an encrypted file")
-		case uint16(*got) != uint16(perm):
-			viol("get-permissions:mismatch", fmt.Sprintf("requested %04X reported %04X", uint16(perm), uint16(*got)))
-		default:
-			t.Count("permissions_match", 1)
-		}
-		var p2 int
-		err = safely(func() error {
-			f, e := os.Open(enc)
-			if e != nil {
-				return e
-			}
-			defer f.Close()
-			p2, e = api.Permissions(f, j.a.conf(upw, opw))
-			return e
-		})
-		if err != nil {
-			viol("list-permissions:error="+errClass(err), err.Error())
-		} else if uint16(p2) != uint16(perm) {
-			viol("list-permissions:mismatch", fmt.Sprintf("requested %04X reported %04X", uint16(perm), uint16(p2)))
-		}
-		// decrypt with either password
-		for _, who := range []struct{ name, u, o string }{{"user", upw, ""}, {"owner", "", opw}} {
-			dec := filepath.Join(dir, fmt.Sprintf("dec-%d-%s.pdf", ji, who.name))
-			err := safely(func() error { return api.DecryptFile(enc, dec, j.a.conf(who.u, who.o)) })
-			if err != nil {
-				viol("decrypt-with-"+who.name+":error="+errClass(err), err.Error())
-				continue
-			}
-			draw, _ := os.ReadFile(dec)
-			if bytes.Contains(draw, []byte("/Encrypt")) {
-				viol("decrypt-with-"+who.name+":still-encrypted", "/Encrypt present after DecryptFile")
-			}
-			d, err := rd.Open(dec, "", "")
-			os.Remove(dec)
-			if err != nil {
-				viol("decrypted-unreadable:error="+errClass(err), err.Error())
-				continue
-			}
-			if cls, det := diffDocs(j.d.Base, d); cls != "" {
-				viol("decrypt-with-"+who.name+":differs:"+cls, det)
-			}
-			t.Count("decrypts_ok", 1)
-		}
-	})
+	cr := &caseRunner{t: t, rd: rd, dir: dir, tag: "doc", rngName: "doccase", sampled: map[string]bool{}}
+	vk.Parallel(len(jobs), func(ji int) { cr.run(jobs[ji]) })
 	names := []string{}
 	for _, d := range sel {
 		names = append(names, d.Name)
@@ -420,14 +344,157 @@ func runDocs(t *vk.T) {
 	t.Extra("documents", names)
 }
 
+type job struct {
+	d  *baseDoc
+	a  algo
+	pc pwClass
+	i  int
+}
+
+// caseRunner drives one (document, algorithm, password class) case: encrypt, open with either password,
+// permissions, decrypt with either password; tag "doc" = corpus documents, "gen" = generated documents.
+type caseRunner struct {
+	t       *vk.T
+	rd      DocReader
+	dir     string
+	tag     string
+	rngName string
+	mu      sync.Mutex
+	sampled map[string]bool
+	planted plantedStats
+}
+
+func (cr *caseRunner) run(j job) {
+	t, rd, dir, ji := cr.t, cr.rd, cr.dir, j.i
+	rng := t.RNGi(cr.rngName, ji)
+	upw, opw := j.pc.Gen(rng)
+	perm := randPerm(rng)
+	dc := docCase{Doc: j.d.Name, Alg: j.a.Name, PW: j.pc.Name, UserQ: fmt.Sprintf("%+q", upw), OwnQ: fmt.Sprintf("%+q", opw), Perm: fmt.Sprintf("%04X", uint16(perm))}
+	failed := false
+	viol := func(what, msg string) {
+		if failed {
+			return // only the first failing step of a case is reported: later steps depend on it
+		}
+		failed = true
+		c := dc
+		c.Msg = msg
+		t.Violate(fmt.Sprintf("%s/alg=%s/pw=%s/%s", cr.tag, j.a.Name, j.pc.Name, what),
+			fmt.Sprintf("%s %s upw=%+q opw=%+q perm=%04X: %s: %s", j.d.Name, j.a.Name, upw, opw, uint16(perm), what, msg), c)
+	}
+	enc := filepath.Join(dir, fmt.Sprintf("enc-%s-%d.pdf", cr.tag, ji))
+	defer os.Remove(enc)
+	conf := j.a.conf(upw, opw)
+	conf.Permissions = perm
+	err := safely(func() error { return api.EncryptFile(j.d.Path, enc, conf) })
+	if j.d.PDF20 && j.a.KeyLen != 256 {
+		// documented: PDF 2.0 requires AES-256
+		if err == nil {
+			viol("pdf20-non-aes256-accepted", "EncryptFile succeeded although pdfcpu documents that PDF 2.0 requires AES-256")
+		}
+		t.Count("cases_pdf20_alg_refused_as_documented", 1)
+		t.Eval("")
+		return
+	}
+	t.Eval(fmt.Sprintf("%s|%s|%s|%s|%s|%04X", j.d.Name, j.a.Name, j.pc.Name, upw, opw, uint16(perm)))
+	t.Count(cr.casesCounter()+j.a.Name, 1)
+	cr.mu.Lock()
+	if k := j.a.Name + j.pc.Name; !cr.sampled[k] && len(cr.sampled) < 8 && ji%7 == 0 {
+		cr.sampled[k] = true
+		t.Sample(dc)
+	}
+	cr.mu.Unlock()
+	if err != nil {
+		viol("encrypt:error="+errClass(err), err.Error())
+		return
+	}
+	raw, _ := os.ReadFile(enc)
+	if !bytes.Contains(raw, []byte("/Encrypt")) {
+		viol("output-not-encrypted", "no /Encrypt in the output of EncryptFile")
+		return
+	}
+	// open with either password
+	for _, who := range []struct{ name, u, o string }{{"user", upw, ""}, {"owner", "", opw}} {
+		d, err := rd.Open(enc, who.u, who.o)
+		if err != nil {
+			viol("open-"+who.name+":error="+errClass(err), err.Error())
+			continue
+		}
+		// generated documents: the ground truth first (its keys name the holder class, not a route through the graph)
+		if cls, det := cr.planted.check(j.d, d, true); cls != "" {
+			viol("open-"+who.name+":"+cls, det)
+		}
+		if cls, det := diffDocs(j.d.Base, d); cls != "" {
+			viol("open-"+who.name+":differs:"+cls, det)
+		}
+		t.Count("opens_ok", 1)
+	}
+	// reported permissions
+	pc := j.a.conf(upw, opw)
+	var got *int16
+	err = safely(func() error { var e error; got, e = api.GetPermissionsFile(enc, pc); return e })
+	switch {
+	case err != nil:
+		viol("get-permissions:error="+errClass(err), err.Error())
+	case got == nil:
+		viol("get-permissions:nil", "GetPermissionsFile reports no permissions for an encrypted file")
+	case uint16(*got) != uint16(perm):
+		viol("get-permissions:mismatch", fmt.Sprintf("requested %04X reported %04X", uint16(perm), uint16(*got)))
+	default:
+		t.Count("permissions_match", 1)
+	}
+	var p2 int
+	err = safely(func() error {
+		f, e := os.Open(enc)
+		if e != nil {
+			return e
+		}
+		defer f.Close()
+		p2, e = api.Permissions(f, j.a.conf(upw, opw))
+		return e
+	})
+	if err != nil {
+		viol("list-permissions:error="+errClass(err), err.Error())
+	} else if uint16(p2) != uint16(perm) {
+		viol("list-permissions:mismatch", fmt.Sprintf("requested %04X reported %04X", uint16(perm), uint16(p2)))
+	}
+	// decrypt with either password
+	for _, who := range []struct{ name, u, o string }{{"user", upw, ""}, {"owner", "", opw}} {
+		dec := filepath.Join(dir, fmt.Sprintf("dec-%s-%d-%s.pdf", cr.tag, ji, who.name))
+		err := safely(func() error { return api.DecryptFile(enc, dec, j.a.conf(who.u, who.o)) })
+		if err != nil {
+			viol("decrypt-with-"+who.name+":error="+errClass(err), err.Error())
+			continue
+		}
+		draw, _ := os.ReadFile(dec)
+		if bytes.Contains(draw, []byte("/Encrypt")) {
+			viol("decrypt-with-"+who.name+":still-encrypted", "/Encrypt present after DecryptFile")
+		}
+		d, err := rd.Open(dec, "", "")
+		os.Remove(dec)
+		if err != nil {
+			viol("decrypted-unreadable:error="+errClass(err), err.Error())
+			continue
+		}
+		if cls, det := cr.planted.check(j.d, d, false); cls != "" {
+			viol("decrypt-with-"+who.name+":"+cls, det)
+		}
+		if cls, det := diffDocs(j.d.Base, d); cls != "" {
+			viol("decrypt-with-"+who.name+":differs:"+cls, det)
+		}
+		t.Count("decrypts_ok", 1)
+	}
+}
+
 func main() {
 	vk.Run("C22", "exploration", func(t *vk.T) {
 		api.DisableConfigDir()
-		t.Rule("(i) corpus documents (<=150 KB, valid, unencrypted, unchanged by pdfcpu's plain optimize+write) x 4 algorithms x 11 password classes (random members) x random permission sets; non-trivial = distinct (doc, alg, passwords, permissions); (ii) primitives: every standard (R, cipher, key length) x obj {0,1,2^23,2^31-1} x gen {0,1,65535} x all lengths 0..64 + random lengths to 4 KiB, non-trivial = non-empty plaintext")
+		t.Rule("(i) corpus documents (<=150 KB, valid, unencrypted, unchanged by pdfcpu's plain optimize+write) x 4 algorithms x 11 password classes (random members) x random permission sets; non-trivial = distinct (doc, alg, passwords, permissions); (i') generated documents (15 quick / 120 thorough; known strings in direct/indirect strings, direct/indirect/nested arrays, dicts in arrays, stream dicts, hex and literal, on pages, annotations, choice fields /Opt /V /DV /TU, name trees, outlines, Info; source layouts xref table, xref stream, xref stream + object streams, hybrid, each also with an incremental update) x 4 algorithms x rotating password class: same pipeline, compared through the canonical graph AND by the planted ground truth; (ii) primitives: every standard (R, cipher, key length) x obj {0,1,2^23,2^31-1} x gen {0,1,65535} x all lengths 0..64 + random lengths to 4 KiB, non-trivial = non-empty plaintext")
 		t.Assume("document equivalence is judged with pdfcpu's own reader (behind the Doc/DocReader interface): page count, decoded page content, Info strings, canonical object graph from Root/Info ignoring /ID, /Encrypt, /Length, /Filter, /DecodeParms, Producer/ModDate/CreationDate; the reference is the original document as read; only documents that a plain unencrypted rewrite (api.OptimizeFile) leaves equivalent are used")
 		t.Assume("PDF 2.0 documents are only encrypted with AES-256 (pdfcpu documents that PDF 2.0 requires AES-256); owner passwords are non-empty (pdfcpu documents that encryption needs an owner password)")
 		t.Assume("AESV2 is exercised with 128-bit keys only, RC4 with 40..128 bit, AESV3 with 256 bit (what ISO 32000 defines); R5/R6 with RC4 is not a defined combination and is not driven")
+		t.Assume("generated documents (pdfgen): the ground truth is the generator's own object model; a planted string's place is its path (/Key, [i]) inside its indirect object; the reference graph is pdfcpu's plain unencrypted rewrite (optimize without resource-dictionary pruning, which encrypt/decrypt never do); a string is demanded only if the source as read and that rewrite show it (on the unchanged tree only Info /Producer /CreationDate /ModDate, which the writer sets, are not); name-tree keys may sit in any /Names array (pdfcpu lays name trees out anew), /Limits strings are not demanded; the catalog's /PieceInfo (deleted by pdfcpu's optimizer) and inherited page attributes are not generated")
 		runPrimitives(t)
 		runDocs(t)
+		runGenDocs(t)
 	})
 }
